@@ -695,22 +695,40 @@ class RecurrencePlot(Cached):
 
         distance = RecurrencePlot.distance_matrix(self, self.metric)
 
+        n_time = distance.shape[0]
+        valid = None
+        if self.missing_values and self.missing_value_indices.any():
+            #  only complete state vectors take part; states with a missing
+            #  value are never recurrent
+            valid = np.flatnonzero(~self.missing_value_indices)
+            distance = distance[np.ix_(valid, valid)]
+
         #  Get indices that would sort the distance matrix.
         #  sorted_neighbors[i,j] contains the index of the jth nearest neighbor
         #  of i. Sorting order is very important here!
         sorted_neighbors = to_cy(distance.argsort(axis=1), NODE)
 
-        n_time = distance.shape[0]
-        recurrence = np.zeros((n_time, n_time), dtype=LAG)
+        n_used = distance.shape[0]
+        recurrence = np.zeros((n_used, n_used), dtype=LAG)
 
         #  Set processing order of state vectors
         if order is None:
-            order = np.arange(n_time, dtype=NODE)
+            order = np.arange(n_used, dtype=NODE)
+        elif valid is not None:
+            #  keep the given order among the complete state vectors
+            position = np.full(n_time, -1, dtype=int)
+            position[valid] = np.arange(n_used)
+            order = position[np.asarray(order, dtype=int)]
+            order = to_cy(order[order >= 0], NODE)
         else:
             order = to_cy(order, NODE)
 
-        _set_adaptive_neighborhood_size(n_time, adaptive_neighborhood_size,
+        _set_adaptive_neighborhood_size(n_used, adaptive_neighborhood_size,
                                         sorted_neighbors, order, recurrence)
+        if valid is not None:
+            full = np.zeros((n_time, n_time), dtype=LAG)
+            full[np.ix_(valid, valid)] = recurrence
+            recurrence = full
         self.R = recurrence
 
     @staticmethod
